@@ -344,3 +344,29 @@ def sim_as_completed(futs, timeout: Optional[float] = None):
         for f in ready:
             pending.remove(f)
             yield f
+
+
+class ParallelSeams:
+    """Context manager: the engine's thread pool, as_completed and cache locks run under a (new) seeded scheduler."""
+
+    def __init__(self, stream: Optional[Stream]):
+        self.stream = stream
+
+    def __enter__(self) -> Sched:
+        import clematis.engine.util.parallel as upar
+        import clematis.engine.cache as ecache
+        self._mods = (upar, ecache)
+        self.saved = (upar.ThreadPoolExecutor, upar.as_completed, ecache.threading)
+        upar.ThreadPoolExecutor = SimExecutor  # type: ignore
+        upar.as_completed = sim_as_completed  # type: ignore
+        ecache.threading = ThreadingShim()  # type: ignore
+        self.sched = Sched(self.stream)
+        self.sched.__enter__()
+        SimExecutor.created = 0
+        return self.sched
+
+    def __exit__(self, *a: Any) -> bool:
+        self.sched.__exit__(*a)
+        upar, ecache = self._mods
+        upar.ThreadPoolExecutor, upar.as_completed, ecache.threading = self.saved
+        return False
